@@ -2,7 +2,7 @@
    ADD-based oracle (compile, boundary diagrams, restrict, sum, modelcount) is the Shapley value of the KNN game. *)
 From Coq Require Import List Arith ZArith QArith Lia Bool Setoid.
 From DS Require Import Util.SumQ Spec.Shapley Model.ADD Spec.Count Spec.Knn Model.Oracle Model.ShapleyAdd
-     Proofs.ShapleyAxioms Proofs.KernelFull Proofs.KnnShapley Proofs.OracleExact.
+     Proofs.ShapleyAxioms Proofs.KernelFull Proofs.KnnShapley Proofs.OracleExact Proofs.OracleValid.
 Import ListNotations.
 Local Open Scope Q_scope.
 
@@ -41,4 +41,25 @@ Proof.
   rewrite (combine_points (fun p o uc nl => nth i (shapley_add_point p o uc nl) 0) (fun d => mkProb n rows labels d (n - 1) K C) (fun p => count_spec p)).
   apply Qmult_comp; [|reflexivity]. apply sumQ_ext. intros [[d u] nl] _. cbn [fst snd].
   apply shapley_add_point_ext; [|exact Hi]. intros i' t1 t2 Hi'. apply chain_oracle_exact; assumption.
+Qed.
+
+(* any conjunctive provenance (rows needing several units, compile()'s leaf/factor case): whenever the validator accepts
+   the compiled diagram and row locations, the loop over the model of the ADD-based oracle is the Shapley value *)
+Theorem add_validated_is_shapley n K C rows labels dists ucols nulls d locs i :
+  (2 <= n)%nat -> (i < n)%nat -> (1 <= K)%nat ->
+  (forall ds, In ds dists -> valid_compiled (mkProb n rows labels ds (n - 1) K C) d locs = true) ->
+  (forall r, (r < length rows)%nat -> (nth r labels 0 < C)%nat) ->
+  (forall ds, In ds dists -> length ds = length rows /\ NoDup (map Qred ds)) ->
+  nth i (shapley_add (map (fun ds => mkProb n rows labels ds (n - 1) K C) dists)
+                     (map (fun p => oracle_of p d locs) (map (fun ds => mkProb n rows labels ds (n - 1) K C) dists)) ucols nulls n) 0
+  == shapley n (v_knn K C rows labels dists ucols nulls) i.
+Proof.
+  intros Hn Hi HK Hv Hlab Hd. rewrite <- (add_is_shapley n K C rows labels dists ucols nulls i Hi HK Hlab Hd).
+  unfold shapley_add. rewrite !map_nth_seq by exact Hi.
+  rewrite (combine_points (fun p o uc nl => nth i (shapley_add_point p o uc nl) 0) (fun ds => mkProb n rows labels ds (n - 1) K C) (fun p => oracle_of p d locs)).
+  rewrite (combine_points (fun p o uc nl => nth i (shapley_add_point p o uc nl) 0) (fun ds => mkProb n rows labels ds (n - 1) K C) (fun p => count_spec p)).
+  apply Qmult_comp; [|reflexivity]. apply sumQ_ext. intros [[ds u] nl] Ht. cbn [fst snd].
+  apply in_combine_l in Ht. apply in_combine_l in Ht.
+  apply shapley_add_point_ext; [|exact Hi]. intros i' t1 t2 Hi'. unfold oracle_of.
+  rewrite (oracle_exact_validated _ d locs i' t1 t2 (Hv ds Ht)); [reflexivity|exact Hn|exact Hi'].
 Qed.
